@@ -12,7 +12,9 @@ from ..events import container_events, root_name
 from ..paths import path_variants, return_cases, var_leaves
 from ..defuse import DefUse, Terms, show, walk_term
 from ..defuse import key as tkey
-from ..tutil import (EvUnknown, bound_args, ev_term, lin, np_call, seq_parts,
+from ..tutil import (EvUnknown, bound_args, ev_term, flat_text, items_as_subs, lin,
+                     no_uids,
+                     np_call, select_ifexp, seq_parts,
                      simp,
                      strip_conv, subst_params)
 
@@ -73,7 +75,12 @@ def _pair_idiom(cfg, T, store_stmt, lo_atom, hi_atom, loop):
                   and b[2][2] == none and b[2][3] == none)
             if ok:
                 return a[1], None
-        return None, "zip of something else than S[:-1], S[1:]"
+        # zip(S, S[1:]): zip stops with the shorter second argument
+        none = ("const", None)
+        if b[0] == "sub" and b[1] == a and b[2] == (
+                "slice", ("const", 1), none, none):
+            return a, None
+        return None, "zip of something else than S[:-1] / S, S[1:]"
     # A
     if lo_atom[0] == "elem" and hi_atom[0] == "sub" and \
             hi_atom[1] == lo_atom[1]:
@@ -235,15 +242,32 @@ def _shuffle(ctx, f):
         return
     # perm = perms[L] with L == end - start
     diff = l_hi + l_lo.scale(-1)
-    ok_p = PERM[0] == "sub" and PERM[1][0] == "var" and lin(PERM[2]) == diff
+    # the permutation comes out of a cache keyed by the interior length:
+    # cache[L], cache.get(L), or the value just filed under cache[L]
+    leaves = var_leaves(du, T, PERM) if PERM[0] in ("var", "phi") \
+        else [PERM]
+    reads, direct = [], []
+    for lf in leaves:
+        if lf[0] == "sub" and lf[1][0] == "var":
+            reads.append((lf[1][1], lf[2]))
+        elif lf[0] == "mcall" and lf[2] == "get" and lf[1][0] == "var" \
+                and lf[3]:
+            reads.append((lf[1][1], lf[3][0]))
+        else:
+            direct.append(lf)
+    names = {nm for nm, _k in reads}
+    ok_p = len(names) == 1 and all(lin(k) == diff for _n, k in reads)
+    PERMS = next(iter(names)) if len(names) == 1 else None
+    if ok_p and direct:
+        filed = [no_uids(e.value) for e in evs
+                 if root_name(e.recv) == PERMS and e.kind == "store"]
+        ok_p = all(no_uids(d) in filed for d in direct)
     ctx.check(ok_p, "C18a-permutation-length", f,
               "the permutation used has length end - start",
-              f"permutation is {show(PERM, 120)}; interior length "
-              f"{diff!r}", node=so.node)
+              f"permutation is {[show(x, 80) for x in leaves]}; interior "
+              f"length {diff!r}", node=so.node)
     if not ok_p:
         return
-    PERMS = PERM[1][1]
-    L_t = PERM[2]
     # short interiors untouched: the store runs iff L > 1
     LEN_S = ("call", "builtins.len", (SITES,), ())
     conds = [(simp(T.of(t)), o) for t, o in
@@ -385,8 +409,10 @@ def _make(ctx, f):
         if not ws:
             continue
         ctx.require(len(ws) == 1, f"{f.qual}: several writes")
+        wt = vT.of(ws[0].args[0])
         for fl in ([flag] if flag is not None else [True, False]):
-            seen.setdefault(fl, []).append(vT.of(ws[0].args[0]))
+            seen.setdefault(fl, []).append(items_as_subs(select_ifexp(
+                wt, ("param", "concatenate"), fl)))
     ctx.require(set(seen) == {True, False}, f"{f.qual}: written text not "
                 "determined for both values of concatenate")
     recs = {}
@@ -401,11 +427,11 @@ def _make(ctx, f):
                 why = f"written text is {show(t, 160)}"
                 continue
             _k, elt, R = parts[0]
-            want = ("mcall", NL, "join", (("list", (
-                ("bin", "+", ("const", ">"), ("item", ("elem", R), 0)),
-                ("mcall", NL, "join", (("call", "textwrap.wrap", (
-                    ("item", ("elem", R), 1),), ()),), ()))),), ())
-            if elt != want:
+            rec = ("elem", R)
+            want = [("const", ">"), ("sub", rec, ("const", 0)), NL,
+                    ("mcall", NL, "join", (("call", "textwrap.wrap", (
+                        ("sub", rec, ("const", 1)),), ()),), ())]
+            if flat_text(elt) != want:
                 ok_w = False
                 why = f"a record is written as {show(elt, 200)}"
             recs.setdefault(fl, set()).add(R)
@@ -431,7 +457,10 @@ def _make(ctx, f):
         sp = prog.func(FA + "_shuffle_proteins").params
         ok = [b.get(p) for p in sp[1:4]] == [
             ("param", "decoy_prefix"), ("param", "enzyme"),
-            ("param", "reverse")] and b.get(sp[0], ("x",))[0] == "comp"
+            ("param", "reverse")] and any(
+                isinstance(x, tuple) and x[:2] == (
+                    "call", FA + "_parse_fasta_files")
+                for x in walk_term(b.get(sp[0], ("x",))))
     ctx.check(ok, "C18c-options-routed", f,
               "prefix, enzyme and reverse reach _shuffle_proteins",
               f"{show(DEC, 200) if DEC else None}", node=f.node)
